@@ -199,3 +199,54 @@ func FuzzC19MsgData(f *testing.F) {
 		}
 	})
 }
+
+// TestC19MsgDataHistory: the bytes returned by Serialize stay valid while
+// later control messages are serialised (SendControlMsg hands them to the GBN
+// send queue, which keeps them for retransmission), and decoded payloads stay
+// valid while later messages are decoded.
+func TestC19MsgDataHistory(t *testing.T) {
+	const unit = "TestC19MsgDataHistory"
+	rec := stats.New(t, "C19", unit)
+	if stats.ReplayMode() {
+		t.Skip()
+	}
+	rapid.Check(t, func(rt *rapid.T) {
+		n := rapid.IntRange(2, 12).Draw(rt, "n")
+		vers := make([]uint8, n)
+		pls := make([][]byte, n)
+		wire := make([][]byte, n)
+		for i := 0; i < n; i++ {
+			vers[i] = rapid.Uint8().Draw(rt, "version")
+			pls[i] = rapid.SliceOfN(rapid.Byte(), 0, 300).Draw(rt, "payload")
+			b, err := mailbox.NewMsgData(vers[i], append([]byte(nil), pls[i]...)).Serialize()
+			if err != nil {
+				rt.Fatalf("Serialize: %v", err)
+			}
+			wire[i] = b
+		}
+		// one MsgData object is reused for decoding, as a receive loop might
+		decoded := make([]*mailbox.MsgData, n)
+		for i := 0; i < n; i++ {
+			m, err, p := msgDataDeserialize(wire[i])
+			if p != "" || err != nil {
+				v := fmt.Sprintf("message #%d (version %d, %d bytes) no longer deserialises after %d later messages were serialised: %v %s", i, vers[i], len(pls[i]), n-1-i, err, p)
+				rec.Pending(v, "history", map[string]any{"n": n})
+				rt.Fatalf("%s", v)
+			}
+			decoded[i] = m
+		}
+		for i := 0; i < n; i++ {
+			if decoded[i].ProtocolVersion() != vers[i] || !bytes.Equal(decoded[i].Payload, pls[i]) {
+				v := fmt.Sprintf("message #%d was serialised with version %d and %d payload bytes; after the other %d messages were serialised and decoded it reads version %d, %d bytes (equal content: %v)",
+					i, vers[i], len(pls[i]), n-1, decoded[i].ProtocolVersion(), len(decoded[i].Payload), bytes.Equal(decoded[i].Payload, pls[i]))
+				rec.Pending(v, "history", map[string]any{"n": n})
+				rt.Fatalf("%s", v)
+			}
+		}
+		rec.Case(true, fmt.Sprintf("%v/%d", vers, len(pls[0])), "serialisations_kept_across_later_ones")
+		if rec.WantSample() {
+			rec.Sample(map[string]any{"versions": vers})
+		}
+	})
+	rec.Done()
+}
